@@ -84,16 +84,14 @@ var AllClasses = []string{ClsASCII, ClsASCII, ClsUnicode, ClsXMLMeta, ClsControl
 var Expressible = []string{ClsASCII, ClsASCII, ClsUnicode, ClsXMLMeta, ClsEdgeWS, ClsBlank, ClsEmpty}
 
 // XMLExpressible reports whether s survives an XML 1.0 writer/reader pair unchanged:
-// valid UTF-8, only characters of the XML Char production, and no CR (parsers normalise CR/CRLF to LF).
+// valid UTF-8 and only characters of the XML Char production (CR survives because the encoder writes it as &#xD;).
 func XMLExpressible(s string) bool {
 	if !utf8.ValidString(s) {
 		return false
 	}
 	for _, r := range s {
 		switch {
-		case r == 0x9 || r == 0xA:
-		case r == 0xD:
-			return false
+		case r == 0x9 || r == 0xA || r == 0xD:
 		case r < 0x20:
 			return false
 		case r >= 0xD800 && r <= 0xDFFF:
@@ -141,7 +139,10 @@ func (im Img) Bytes() []byte {
 	rgba := image.NewRGBA(image.Rect(0, 0, w, h))
 	for y := 0; y < h; y++ {
 		for x := 0; x < w; x++ {
-			v := uint32(im.Pat)*2654435761 + uint32(x*7+y*13)
+			v := uint32(x)*73856093 ^ uint32(y)*19349663 ^ uint32(im.Pat)*83492791
+			v ^= v >> 13
+			v *= 0x5bd1e995
+			v ^= v >> 15
 			rgba.Set(x, y, color.RGBA{uint8(v >> 16), uint8(v >> 8), uint8(v), 255})
 		}
 	}
